@@ -64,6 +64,7 @@ struct State {
     max_tasks: usize,
     worker_panics: Vec<String>,
     skip_poll: bool,
+    hang_in_drop: bool,
 }
 
 pub struct Ctl {
@@ -95,6 +96,7 @@ impl Ctl {
                 max_tasks,
                 worker_panics: vec![],
                 skip_poll: false,
+                hang_in_drop: false,
             }),
             cv: Condvar::new(),
         }
@@ -305,8 +307,18 @@ impl Controller for Ctl {
     }
 
     fn drain_idle(&self) -> bool {
-        let s = self.st.lock().unwrap();
-        s.hang || s.diverged || std::thread::panicking()
+        let mut s = self.st.lock().unwrap();
+        if s.hang || s.diverged || std::thread::panicking() {
+            return true;
+        }
+        // channel empty, not done, no error: if no task is left either, nothing can ever change that:
+        // the real drop loop would sleep and poll for ever
+        if s.tasks.iter().all(|t| t.state == TaskState::Done) {
+            s.trace.push("HANG-IN-DROP".to_string());
+            s.hang_in_drop = true;
+            return true;
+        }
+        false
     }
 }
 
@@ -354,6 +366,8 @@ pub struct RunResult {
     pub worker_panics: Vec<String>,
     pub replay_misfit: Option<String>,
     pub tasks: usize,
+    /// the coordinator's drop loop would poll for ever
+    pub hang_in_drop: bool,
 }
 
 impl RunResult {
@@ -362,7 +376,7 @@ impl RunResult {
     }
     /// no panic on any thread, no hang, no divergence
     pub fn clean(&self) -> bool {
-        self.worker_panics.is_empty() && matches!(self.verdict, Verdict::Ok | Verdict::Err(_))
+        self.worker_panics.is_empty() && !self.hang_in_drop && matches!(self.verdict, Verdict::Ok | Verdict::Err(_))
     }
 }
 
@@ -452,6 +466,7 @@ pub fn run_controlled(cfg: Config, opts: &CtlOpts) -> RunResult {
         worker_panics: s.worker_panics.clone(),
         replay_misfit: s.replay_misfit.clone(),
         tasks: s.tasks.len(),
+        hang_in_drop: s.hang_in_drop,
     }
 }
 
